@@ -267,5 +267,78 @@ class InstallArguments(Bounded):
             shutil.rmtree(top, ignore_errors=True)
 
 
+class TestsRunApart(Bounded):
+    """Two tests, the first given as a command *string* that changes the working directory and exports a variable
+    before it runs its program: under both backends the second test is started from the build directory without that
+    variable (a test is a command of its own, not the continuation of the previous one)."""
+    target = 'bfg9000/builtins/tests.py::ninja_test_rule'
+    properties = ('C06',)
+    reason = 'what the second process sees depends on the shell that runs the generated text: runtime contract with the real sh / make'
+    native_chunk = 1
+
+    def cases(self):
+        return ['make', 'ninja']
+
+    def native_inputs(self, case, alphabet, maxlen, rng, extra=0):
+        yield {'backend': case}
+
+    def native_check(self, case, raw):
+        import shutil, subprocess, tempfile
+        from pyvc.interp import REPO
+        from specs.ninja_eval import NinjaFile
+        top = tempfile.mkdtemp(prefix='pyvc_tests_')
+        try:
+            src, b, log = top + '/src', top + '/b', top + '/spy.log'
+
+            def w(fp, text, mode=None):
+                os.makedirs(os.path.dirname(fp), exist_ok=True)
+                with open(fp, 'w') as f:
+                    f.write(text)
+                if mode:
+                    os.chmod(fp, mode)
+            w(src + '/build.bfg', "project('t')\ntest('cd sub && K=leak && export K && ' + env.srcdir.append('first.sh').string())\n"
+                                  "test([executable('second.sh')])\n")
+            spy = SPY.replace('"%(name)s" "$@"', '"%(name)s" "$PWD"')
+            for n in ('first.sh', 'second.sh'):
+                w(src + '/' + n, spy % {'name': n, 'log': log, 'then': 'exit 0'}, 0o755)
+            lp = top + '/bin/bfg9000'
+            w(lp, "#!/bin/sh\nPYTHONPATH=%s exec /venv/bin/python -c 'import sys; sys.argv[0] = \"%s\"; "
+                  "from bfg9000.driver import main; sys.exit(main())' \"$@\"\n" % (REPO, lp), 0o755)
+            w(top + '/bin/ninja', '#!/bin/sh\necho 1.10.1\n', 0o755)
+            env = dict(os.environ, PATH=top + '/bin:/venv/bin:' + os.environ['PATH'])
+            for k in ('MAKEFLAGS', 'K', 'D', 'E'):
+                env.pop(k, None)
+            r = subprocess.run([lp, 'configure-into', src, b, '--backend=' + case, '--no-resolve-packages'], env=env,
+                               capture_output=True, text=True, timeout=120)
+            if r.returncode != 0:
+                return self.fail(case, raw, 'configure_succeeds', stderr=r.stderr[-400:])
+            os.makedirs(b + '/sub')
+            if case == 'make':
+                m = subprocess.run(['make', '-C', b, 'test'], env=env, capture_output=True, text=True, timeout=120)
+                ok, out = m.returncode == 0, m.stdout + m.stderr
+            else:
+                nf = NinjaFile(open(b + '/build.ninja').read())
+                bld = [x for x in nf.builds if 'test' in x.outputs][0]
+                p = subprocess.run(['/bin/sh', '-c', nf.command(bld)], cwd=b, env=env, capture_output=True, text=True, timeout=120)
+                ok, out = p.returncode == 0, p.stdout + p.stderr
+            if not ok:
+                return self.fail(case, raw, 'tests_run', output=out[-400:])
+            recs = {}
+            for chunk in open(log, 'rb').read().decode('utf-8', 'replace').split('\x1d'):
+                if chunk:
+                    argv, envs = chunk.split('\x1e')
+                    argv = argv.split('\0')[:-1]
+                    recs[argv[0]] = (argv[1], dict(e.split('=', 1) for e in envs.split('\0') if e))
+            if sorted(recs) != ['first.sh', 'second.sh'] or recs['first.sh'] != (os.path.realpath(b) + '/sub', dict(recs['first.sh'][1], K='leak')):
+                return self.fail(case, raw, 'first_test_runs_as_written', got={k: list(v) for k, v in recs.items()})
+            cwd, ev = recs['second.sh']
+            if os.path.realpath(cwd) != os.path.realpath(b) or ev.get('K') != 'UNSET':
+                return self.fail(case, raw, 'second_test_starts_from_the_build_directory_with_its_own_environment',
+                                 working_directory=cwd, K=ev.get('K'), build_directory=b)
+            return True
+        finally:
+            shutil.rmtree(top, ignore_errors=True)
+
+
 def registry():
-    return [ProcessArguments(), InstallArguments()]
+    return [ProcessArguments(), InstallArguments(), TestsRunApart()]
